@@ -703,6 +703,9 @@ class Interp:
         a = np.real(a)
         if a[0].size:
             self.max_fn_arg = max(self.max_fn_arg, float(np.max(np.abs(a[0]))))
+            if nuv != int(nuv):
+                # fractional order: x**nu behaviour at the origin, not differentiable there (0 * inf in a chain rule)
+                self.min_den = min(self.min_den, float(np.min(np.abs(a[0]))))
         with np.errstate(all="ignore"):
             return self.js.compose(a, jt.bessel_table(kind, nuv))
 
